@@ -204,11 +204,11 @@ func TimeMs(v reflect.Value) int64 {
 
 // BisimOpts tunes the graph comparison.
 type BisimOpts struct {
-	NilEmpty     bool // null ≡ empty container / "" / empty binary
-	IgnoreTypes  bool // do not compare list/map type names and typedness
-	DateSlackMs  int64
-	IgnoreClass  bool
-	WireNumbers  bool // int and long compare by number (top-level widening)
+	NilEmpty    bool // null ≡ empty container / "" / empty binary
+	IgnoreTypes bool // do not compare list/map type names and typedness
+	DateSlackMs int64
+	IgnoreClass bool
+	WireNumbers bool // int and long compare by number (top-level widening)
 	// Pairing, when non-nil, records which a-node each container of b was matched with; a
 	// container of b reached again (through a reference) must be matched with the same a-node.
 	Pairing map[*rh.Value]*rh.Value
